@@ -1,3 +1,125 @@
 import GoagModel.Resp
+/-
+  C02 (first sentence) — the values a handler can return are exactly the documented responses.
+
+  `Resp.emittedTypes` is the model of which response types goag emits and which unexported
+  `write<Op>` methods each carries (an inline response: its own operation's; a shared
+  component response: one per operation in its UsedIn list, aliases resolved).  In Go a type
+  satisfies the operation's one-method response interface iff it has that method, so
+  `Resp.implementers d o` is the set of types a handler of `o` can return.  The model is tied to
+  the generated package on every run: `go/types` computes the implementer set of every
+  `<Op>Response` interface over ALL named types of the package and it must equal this.
+
+  Theorem: for every document, if operation names are distinct (else: KF-C01-nameCollision)
+  the implementers of an operation's response interface are exactly its documented types.
+-/
 namespace Goag.Resp
+
+theorem rootOf_mem (d : DocR) (fuel : Nat) (m n : String) (df : RespDef)
+    (h : rootOf d fuel m = some (n, df)) : ∃ n', (n', (Sum.inr df : String ⊕ RespDef)) ∈ d.comps ∧ n' = n := by
+  induction fuel generalizing m with
+  | zero => simp [rootOf] at h
+  | succ f ih =>
+    unfold rootOf at h
+    split at h
+    · exact ih _ h
+    · rename_i x def_ hfind
+      simp only [Option.some.injEq, Prod.mk.injEq] at h
+      obtain ⟨hn, hd⟩ := h
+      subst hd
+      have hm := List.mem_of_find?_eq_some hfind
+      have hp := List.find?_some hfind
+      refine ⟨x, hm, ?_⟩
+      simp only [beq_iff_eq] at hp
+      rw [hp, hn]
+    · simp at h
+
+theorem root_mem (d : DocR) (m n : String) (df : RespDef) (h : root d m = some (n, df)) :
+    (n, (Sum.inr df : String ⊕ RespDef)) ∈ d.comps := by
+  obtain ⟨n', hm, hn⟩ := rootOf_mem d _ m n df h
+  subst hn
+  exact hm
+
+/-- **C02.** -/
+theorem implementers_eq_documented (d : DocR) (o : OpR) (ho : o ∈ d.ops)
+    (hnames : ∀ o' ∈ d.ops, operationName o' = operationName o → o' = o) (T : String) :
+    T ∈ implementers d o ↔ T ∈ documentedTypes d o := by
+  unfold implementers documentedTypes emittedTypes
+  simp only [List.mem_map, List.mem_filter, List.mem_append, List.mem_filterMap]
+  constructor
+  · rintro ⟨t, ⟨ht | ht, hc⟩, rfl⟩
+    · -- an inline response type: it belongs to the one operation with this name
+      unfold inlineTypes at ht
+      simp only [List.mem_flatMap, List.mem_filterMap] at ht
+      obtain ⟨o', ho', u, hu, hsome⟩ := ht
+      cases u with
+      | comp st n => simp at hsome
+      | inline st df =>
+        simp only [Option.some.injEq] at hsome
+        subst hsome
+        simp only [List.contains_cons, List.contains_nil, Bool.or_false, beq_iff_eq] at hc
+        have := hnames o' ho' hc.symm
+        subst this
+        exact ⟨.inline st df, hu, rfl⟩
+    · -- a shared response: one of its users has this operation's name, hence is this operation
+      unfold compTypes at ht
+      simp only [List.mem_filterMap] at ht
+      obtain ⟨⟨n, c⟩, hmem, hsome⟩ := ht
+      cases c with
+      | inl a => simp at hsome
+      | inr df =>
+        simp only [Option.some.injEq] at hsome
+        subst hsome
+        simp only [List.contains_iff_mem, List.mem_filterMap] at hc
+        obtain ⟨o', ho', hif⟩ := hc
+        by_cases hu : usesRoot d o' n = true
+        · simp only [hu, if_true, Option.some.injEq] at hif
+          have := hnames o' ho' hif
+          subst this
+          unfold usesRoot at hu
+          simp only [List.any_eq_true] at hu
+          obtain ⟨u, hu1, hu2⟩ := hu
+          cases u with
+          | inline st df' => simp at hu2
+          | comp st m =>
+            refine ⟨.comp st m, hu1, ?_⟩
+            simp only [beq_iff_eq] at hu2
+            cases hr : root d m with
+            | none => simp [hr] at hu2
+            | some r =>
+              simp only [hr, Option.map_some, Option.some.injEq] at hu2
+              obtain ⟨rn, rd⟩ := r
+              simp only at hu2
+              subst hu2
+              simp [hr]
+        · simp [hu] at hif
+  · rintro ⟨u, hu, hsome⟩
+    cases u with
+    | inline st df =>
+      simp only [Option.some.injEq] at hsome
+      subst hsome
+      refine ⟨{ name := inlineTypeName o st df, methods := [operationName o] }, ⟨Or.inl ?_, by simp⟩, rfl⟩
+      unfold inlineTypes
+      simp only [List.mem_flatMap, List.mem_filterMap]
+      exact ⟨o, ho, .inline st df, hu, rfl⟩
+    | comp st m =>
+      cases hr : root d m with
+      | none => simp [hr] at hsome
+      | some r =>
+        obtain ⟨n, df⟩ := r
+        simp only [hr, Option.map_some, Option.some.injEq] at hsome
+        subst hsome
+        have hmem := root_mem d m n df hr
+        have huses : usesRoot d o n = true := by
+          unfold usesRoot
+          simp only [List.any_eq_true]
+          exact ⟨.comp st m, hu, by simp [hr]⟩
+        refine ⟨{ name := n ++ "Response", methods := d.ops.filterMap (fun o' => if usesRoot d o' n then some (operationName o') else none) },
+                ⟨Or.inr ?_, ?_⟩, rfl⟩
+        · unfold compTypes
+          simp only [List.mem_filterMap]
+          exact ⟨(n, Sum.inr df), hmem, rfl⟩
+        · simp only [List.contains_iff_mem, List.mem_filterMap]
+          exact ⟨o, ho, by simp [huses]⟩
+
 end Goag.Resp
